@@ -89,7 +89,7 @@ func NewContractSet() *ContractSet {
 	return &ContractSet{Funcs: map[string]*FuncContract{}, Specs: map[string]*SpecFn{}, Ghosts: map[string]*GhostDecl{}, Invs: map[string]*NamedInv{}, OpaqueSorts: map[string]bool{}}
 }
 
-var kwRe = regexp.MustCompile(`^(spec|axiom|ghost|inv|func|extern|requires|ensures|maintains|modifies|may_panic|deterministic|nooverflow|inline|mode|bytes|loop|assert|locals|lemma|uses|trusted|pure|opaque|reveal|bounded|keyfns|keyfn|sort|replay|abstract)\b`)
+var kwRe = regexp.MustCompile(`^(spec|axiom|ghost|inv|func|extern|requires|ensures|maintains|modifies|may_panic|deterministic|nooverflow|inline|mode|bytes|loop|assert|locals|lemma|uses|unfold|trusted|pure|opaque|reveal|bounded|keyfns|keyfn|sort|replay|abstract)\b`)
 
 // logical lines: (keyword, rest, line number)
 type cline struct {
@@ -225,7 +225,7 @@ func (cs *ContractSet) LoadFile(path, pkgPath string) error {
 					cur.Modifies = append(cur.Modifies, m)
 				}
 			}
-		case "may_panic", "deterministic", "nooverflow", "inline", "trusted", "pure", "opaque", "bounded", "keyfn", "abstract":
+		case "may_panic", "deterministic", "nooverflow", "inline", "trusted", "pure", "opaque", "bounded", "keyfn", "abstract", "unfold":
 			if cur == nil {
 				return fmt.Errorf("%s:%d: flag outside func", path, l.line)
 			}
